@@ -1,8 +1,9 @@
 #!/bin/bash
-# usage: tools/seed_regress.sh  — apply every archived seed to /repo, run the quick check of the property it violates, report the ones NOT caught
+# usage: tools/seed_regress.sh [Cnn ...]  — apply every archived seed (or those of the named properties) to /repo, run the quick check of the property it violates, report the ones NOT caught
 cd /verif
 for d in seeded/C*/; do
   name=$(basename $d)
+  if [ $# -gt 0 ]; then case " $* " in *" ${name:0:3} "*) ;; *) continue ;; esac; fi
   prop=${name:0:3}
   git -C /repo diff --quiet || { echo "/repo dirty"; exit 2; }
   pf="/verif/$d/patch.diff"
